@@ -17,6 +17,7 @@ import (
 
 // runIndex runs the indexer over the rig's tape into the rig's index the way `stfs recovery index` and Initialize do.
 func runIndex(r *Rig, overwrite bool) error {
+	stepBegin()
 	rd, err := r.BE.GetReader()
 	if err != nil {
 		return err
